@@ -30,6 +30,13 @@ class VmMath:
     def reset(self) -> None:
         self._eval_stack.clear()
 
+    def stack_depth(self) -> int:
+        return len(self._eval_stack)
+
+    def restore_depth(self, depth) -> None:
+        if depth is not None:
+            self._eval_stack.truncate(depth)
+
     def push(self, srce) -> None:
         value = None
         if isinstance(srce, Number) or srce is Operand.NULL:
